@@ -27,6 +27,8 @@ struct Ent {
     size: usize,
     align: usize,
     freed: bool,
+    /// a yield point reported an address inside this block (it is shared data of the code under test)
+    marked: bool,
 }
 
 struct Table {
@@ -43,7 +45,7 @@ unsafe impl Sync for Table {}
 static TABLE: Table = Table {
     lock: AtomicBool::new(false),
     n: AtomicUsize::new(0),
-    ents: std::cell::UnsafeCell::new([Ent { ptr: 0, size: 0, align: 0, freed: false }; CAP]),
+    ents: std::cell::UnsafeCell::new([Ent { ptr: 0, size: 0, align: 0, freed: false, marked: false }; CAP]),
     double_free: AtomicUsize::new(0),
     overflow: AtomicBool::new(false),
 };
@@ -74,7 +76,7 @@ unsafe impl GlobalAlloc for TrackAlloc {
             with_table(|e, n| {
                 let k = n.load(Ordering::Relaxed);
                 if k < CAP {
-                    e[k] = Ent { ptr: p as usize, size: layout.size(), align: layout.align(), freed: false };
+                    e[k] = Ent { ptr: p as usize, size: layout.size(), align: layout.align(), freed: false, marked: false };
                     n.store(k + 1, Ordering::Relaxed);
                 } else {
                     TABLE.overflow.store(true, Ordering::Relaxed);
@@ -126,6 +128,30 @@ pub fn track<R>(f: impl FnOnce() -> R) -> R {
     r
 }
 
+/// Tracking is a property of the *test thread*, not of the OS thread the coroutines share: the
+/// scheduler switches it off while another thread runs.
+pub fn suspend() -> bool {
+    TRACK.try_with(|t| t.replace(false)).unwrap_or(false)
+}
+
+pub fn resume(old: bool) {
+    let _ = TRACK.try_with(|t| t.set(old));
+}
+
+/// A yield point is about to touch `addr`: the tracked block holding it is shared data.
+pub fn note(addr: usize) {
+    if addr == 0 || TABLE.n.load(Ordering::Relaxed) == 0 {
+        return;
+    }
+    with_table(|e, n| {
+        for x in e[..n.load(Ordering::Relaxed)].iter_mut() {
+            if addr >= x.ptr && addr < x.ptr + x.size.max(1) {
+                x.marked = true;
+            }
+        }
+    })
+}
+
 /// Is `addr` inside a tracked block that has been freed?
 pub fn is_freed(addr: usize) -> bool {
     if TABLE.n.load(Ordering::Relaxed) == 0 {
@@ -157,6 +183,9 @@ pub struct Report {
     pub live: usize,
     /// second frees of a tracked block
     pub double_free: usize,
+    /// marked (touched by a yield point) blocks freed / still live
+    pub freed_marked: usize,
+    pub live_marked: usize,
     /// the table overflowed (tool error: results incomplete)
     pub overflow: bool,
 }
@@ -170,6 +199,8 @@ pub fn report() -> Report {
             tracked: k,
             freed,
             live: k - freed,
+            freed_marked: e[..k].iter().filter(|x| x.freed && x.marked).count(),
+            live_marked: e[..k].iter().filter(|x| !x.freed && x.marked).count(),
             double_free: TABLE.double_free.load(Ordering::Relaxed),
             overflow: TABLE.overflow.load(Ordering::Relaxed),
         }
